@@ -1,8 +1,8 @@
 # gen/tr_hash.py — translator for the constants of nitro::lang::hash (C16), re-read from the repository on every run:
 #   * the statement of detail::hash_combine_impl in include/nitro/lang/hash.hpp must have the exact shape
 #         seed ^= value + <integer literal> + (seed << <integer literal>) + (seed >> <integer literal>);
-#     it is read twice — from clang's JSON AST of the (uninstantiated) template and lexically — and both readings
-#     must agree; the three literals become gen_hash_magic, gen_hash_shl, gen_hash_shr
+#     it is read from clang's JSON AST of the (uninstantiated) template — the authority; harmless spellings (operand order
+#     of +, parentheses, `seed = seed ^ (...)`) are accepted — and lexically; where both read it they must agree; the three literals become gen_hash_magic, gen_hash_shl, gen_hash_shr
 #   * the initial seed `std::size_t seed = <literal>;` of hash(const std::tuple<T...>&) and hash(const std::variant<T...>&)
 # Emits Gen/GenHash.v.  Anything unreadable or of another shape becomes `GWordUnknown "why"`, which no obligation
 # of Tie/Tie_C16.v accepts.
@@ -74,8 +74,9 @@ def combine_lexical(src):
 
 
 def combine_clang(repo):
-    """[magic, shl, shr] from clang's AST when the statement has the expected tree; "shape" when clang reads another
-    tree; None when clang is not usable"""
+    """[magic, shl, shr] from clang's AST when the statement MEANS  seed ^= value + C + (seed << A) + (seed >> B)  — the
+    authority.  Harmless spellings are accepted: `seed = seed ^ (...)` / `seed = (...) ^ seed`, any order and nesting of
+    the four summands, extra parentheses.  "shape" when clang reads something else; None when clang is not usable"""
     tu = "#include <nitro/lang/hash.hpp>\n"
     try:
         p = subprocess.run(["clang++", "-std=gnu++17", "-fsyntax-only", "-I" + os.path.join(repo, "include"), "-x", "c++", "-",
@@ -121,23 +122,34 @@ def combine_clang(repo):
             return (d.get("opcode"), term(d["inner"][0]), term(d["inner"][1]))
         return ("?", k)
 
+    def summands(t):
+        if t[0] == "+":
+            return summands(t[1]) + summands(t[2])
+        return [t]
+
     try:
         t = term(bodies[0]["inner"][0])
-    except (KeyError, IndexError, ValueError):
+        seed = ("ref", "seed")
+        if t[0] == "^=" and t[1] == seed:
+            rhs = t[2]
+        elif t[0] == "=" and t[1] == seed and t[2][0] == "^" and t[2][1] == seed:
+            rhs = t[2][2]
+        elif t[0] == "=" and t[1] == seed and t[2][0] == "^" and t[2][2] == seed:
+            rhs = t[2][1]
+        else:
+            return "shape"
+        terms = summands(rhs)
+        if len(terms) != 4:
+            return "shape"
+        vals = [x for x in terms if x == ("ref", "value")]
+        lits = [x for x in terms if x[0] == "lit"]
+        shl = [x for x in terms if x[0] == "<<" and x[1] == seed and x[2][0] == "lit"]
+        shr = [x for x in terms if x[0] == ">>" and x[1] == seed and x[2][0] == "lit"]
+        if not (len(vals) == len(lits) == len(shl) == len(shr) == 1):
+            return "shape"
+        return [lits[0][1], shl[0][2][1], shr[0][2][1]]
+    except (KeyError, IndexError, TypeError, ValueError):
         return "shape"
-    try:
-        op, lhs, rhs = t
-        p2, q2 = rhs[1], rhs[2]          # (value + C + (seed << A))  +  (seed >> B)
-        p1, q1 = p2[1], p2[2]            # (value + C)  +  (seed << A)
-        ok = (op == "^=" and lhs == ("ref", "seed") and rhs[0] == "+" and p2[0] == "+" and p1[0] == "+"
-              and p1[1] == ("ref", "value") and p1[2][0] == "lit"
-              and q1[0] == "<<" and q1[1] == ("ref", "seed") and q1[2][0] == "lit"
-              and q2[0] == ">>" and q2[1] == ("ref", "seed") and q2[2][0] == "lit")
-    except (IndexError, TypeError, ValueError):
-        return "shape"
-    if not ok:
-        return "shape"
-    return [p1[2][1], q1[2][1], q2[2][1]]
 
 
 def seed_of(src, header_re, call_re):
@@ -174,7 +186,12 @@ def generate(repo):
         cl = combine_clang(repo)
         if cl is None:
             notes.append("clang not usable: hash_combine_impl read lexically only")
-        elif consts is not None and cl != consts:
+        elif cl == "shape":
+            consts, why = None, "clang: the statement of hash_combine_impl is not seed ^= value + C + (seed << A) + (seed >> B) in any accepted spelling"
+        elif consts is None:
+            consts, why = cl, None           # clang is the authority; the regex only knows the canonical spelling
+            notes.append("hash_combine_impl read from the clang AST (non-canonical spelling)")
+        elif cl != consts:
             consts, why = None, "clang and the lexical reading of hash_combine_impl disagree: %r vs %r" % (cl, consts)
         tseed, twhy = seed_of(src, r"inline\s+auto\s+hash\s*\(\s*const\s+std::tuple\s*<\s*T\s*\.\.\.\s*>\s*&\s*t\s*\)\s*\{",
                               r"detail::hash_combine_tuple ?< ?0 ?> ?\( ?seed ?, ?t ?\)")
